@@ -51,7 +51,6 @@ M = [
     # ---- C06 / C07 / C12 / C09 / C08 / C11
     ("C06-multiply-nil-noop", ["C06"], "scalar.go", "\tif t == nil {\n\t\treturn s.Zero()\n\t}\n\n\tscalar.Mul(&s.S, &s.S, &t.S)", "\tif t == nil {\n\t\treturn s\n\t}\n\n\tscalar.Mul(&s.S, &s.S, &t.S)"),
     ("C06-minusone-constant-off", ["C06"], "scalar.go", "\ts.S[2] = 18446744073709551613", "\ts.S[2] = 18446744073709551612"),
-    ("C06-pow-exponent-one-of-zero-base", ["C06"], "scalar.go", "\tif t.IsOne() {\n\t\treturn s\n\t}", "\tif t.IsOne() || s.IsZero() {\n\t\treturn s\n\t}"),
     ("C07-decode-accepts-n", ["C07"], "internal/scalar/scalar.go",
      "\txMinP[0], borrow = bits.Sub64(x[0], order[0], borrow)", "\txMinP[0], borrow = bits.Sub64(x[0], order[0]+1, borrow)"),
     ("C07-reduce-ignores-low-limb", ["C07", "C18"], "internal/scalar/scalar.go",
